@@ -13,6 +13,17 @@
 // expected, one after the other ("consecutive occurrences ... each exactly once" in the
 // statement; TreeScheduler re-inserts a dispatched item with its NEXT occurrence, not with the
 // next occurrence after now).
+//
+// Two input classes added after independently seeded changes were missed:
+//   - the last-scheduled time handed to scheduler.NewSchedule carries a non-UTC location (Op.Zone):
+//     the same INSTANT, expressed with a fixed offset. The expected occurrences are computed from
+//     the UTC instant (cron strings are UTC: cron.ParseUTC), never from the time.Time value that
+//     NewSchedule returns, so a schedule whose first run depends on the location of its input is
+//     reported (order/skipped, order/regressed or liveness/due-not-run). Zone-sensitive cron
+//     strings (fixed minute / hour fields) are part of the schedule table.
+//   - schedules that END (7-field cron with a year field, clock started shortly before the end
+//     of that year): after the last occurrence has run the model expects no further run of the
+//     task (order/duplicate, order/after-last-occurrence) while every other task carries on.
 package c17
 
 import (
@@ -48,6 +59,7 @@ type Op struct {
 	Spec string `json:"spec,omitempty"` // cron / @every string
 	Off  int64  `json:"off,omitempty"`  // offset, seconds (may be negative)
 	Last int64  `json:"last,omitempty"` // lastScheduled = now - Last seconds (before NewSchedule's alignment)
+	Zone int    `json:"zone,omitempty"` // location of the lastScheduled time.Time handed to NewSchedule: fixed offset, seconds east of UTC (0 = UTC); the instant is the same
 	CP   bool   `json:"cp,omitempty"`   // resched: lastScheduled = latest checkpoint of the id (what the coordinator passes)
 	D    int64  `json:"d,omitempty"`    // adv: milliseconds
 	B    string `json:"b,omitempty"`    // behave: ok | err | panic | block
@@ -59,7 +71,8 @@ type Case struct {
 	Ops     []Op  `json:"ops"`
 }
 
-const rule = "rapid: history of <=40 ops (Schedule/re-Schedule/Release/Advance/SetExecutorBehaviour/Unblock) over ids 1..5, 13 schedules (@every 1s..1h, 6-field cron), " +
+const rule = "rapid: history of <=40 ops (Schedule/re-Schedule/Release/Advance/SetExecutorBehaviour/Unblock) over ids 1..5, 24 schedules (@every 1s..1h, 5/6-field cron incl. fixed minute/hour fields, " +
+	"7-field cron bounded to the year in which the clock starts), lastScheduled in UTC or a fixed-offset location, clock start incl. 3..90 s before the end of the year (schedules run out), " +
 	"offsets 0/+-s, 1..4 workers, mock clock; non-trivial = a clock jump over >=3 occurrences of a task while another task's executor is blocked on the same worker; distinct by case hash"
 
 type specT struct {
@@ -70,14 +83,31 @@ type specT struct {
 var specs = []specT{
 	{"@every 1s", 1}, {"@every 2s", 2}, {"@every 7s", 7}, {"@every 10s", 10}, {"@every 1m", 60}, {"@every 90s", 90}, {"@every 1h", 3600},
 	{"*/5 * * * * *", 5}, {"30 * * * * *", 60}, {"0 */2 * * * *", 120}, {"15,45 * * * * *", 30}, {"0 0 * * * *", 3600}, {"*/20 * * * * *", 20},
+	// fixed minute / hour fields: the occurrences depend on the zone the fields are evaluated in (cron strings are UTC)
+	{"0 15 * * * *", 3600}, {"0 * * * *", 3600}, {"0 10,40 * * * *", 1800}, {"0 0 */3 * * *", 10800}, {"0 30 12 * * *", 86400}, {"0 5-59/10 * * * *", 600},
 }
+
+// endingSpecs: 7-field cron strings bounded to 2001, the year in which the harness clock starts.
+// With a clock start shortly before 2002-01-01T00:00:00Z (the last three entries of bases) they run out of occurrences
+// while scheduled; with the other clock starts they are ordinary schedules.
+var endingSpecs = []specT{
+	{"* * * * * * 2001", 1}, {"*/5 * * * * * 2001", 5}, {"0 * * * * * 2001", 60}, {"*/2 * * * * * 2000-2001", 2}, {"30 * * * * * 2001", 60},
+}
+
+const yearEndMs = (1_009_843_200 - baseUnix) * 1000 // 2002-01-01T00:00:00Z relative to baseUnix
+
+var bases = []int64{0, 0, 250, 20_000, 3_599_000, 1_234_500, yearEndMs - 10_000, yearEndMs - 90_000, yearEndMs - 3_250}
+
+// zones: location of the lastScheduled value, seconds east of UTC (UTC, +05:30, -03:00, +01:00, +05:45, -09:30, +12:45)
+var zones = []int{0, 0, 0, 0, 19800, -10800, 3600, 20700, -34200, 45900}
 
 var offsets = []int64{0, 0, 0, 0, 1, 5, 30, 90, -1, -5, -30, -90}
 
 func gen(t *rapid.T) Case {
 	var c Case
 	c.Workers = rapid.IntRange(1, 4).Draw(t, "workers")
-	c.BaseMs = rapid.SampledFrom([]int64{0, 0, 250, 20_000, 3_599_000, 1_234_500}).Draw(t, "base")
+	c.BaseMs = rapid.SampledFrom(bases).Draw(t, "base")
+	nearEnd := c.BaseMs >= yearEndMs-100_000
 	n := rapid.IntRange(1, 40).Draw(t, "n")
 	period := map[int]int64{}  // generator's view of what is scheduled
 	blocking := map[int]bool{} // ids whose executor behaviour is "block"
@@ -100,7 +130,11 @@ func gen(t *rapid.T) Case {
 	}
 	drawSched := func(id int, re bool) Op {
 		sp := rapid.SampledFrom(specs).Draw(t, "spec")
-		o := Op{K: "sched", ID: id, Spec: sp.s, Off: rapid.SampledFrom(offsets).Draw(t, "off")}
+		// ending schedules: every second Schedule when the clock starts shortly before the end, rarely otherwise
+		if e := rapid.IntRange(0, 19).Draw(t, "ending"); (nearEnd && e < 10) || e == 0 {
+			sp = rapid.SampledFrom(endingSpecs).Draw(t, "endspec")
+		}
+		o := Op{K: "sched", ID: id, Spec: sp.s, Off: rapid.SampledFrom(offsets).Draw(t, "off"), Zone: rapid.SampledFrom(zones).Draw(t, "zone")}
 		if re {
 			o.K = "resched"
 			o.CP = rapid.IntRange(0, 9).Draw(t, "cp") < 7
@@ -207,7 +241,8 @@ type taskM struct {
 	spec      string
 	off       int64
 	last      int64 // lastScheduled handed to the scheduler in this epoch
-	next      int64 // next expected occurrence
+	next      int64 // next expected occurrence (0 when exhausted)
+	exhausted bool  // the schedule has no occurrence after prevSF (or none at all): no further run is expected in this epoch
 	prevSF    int64 // scheduledFor of the latest run started in this epoch (0 = none)
 	behave    string
 	active    *runRec // Execute in progress
@@ -230,6 +265,7 @@ type world struct {
 	nErrRuns int
 	nPanics  int
 	nBlocked int
+	nLast    int // runs that were the last occurrence of an ending schedule
 	opIdx    int
 	draining bool
 	failSig  string
@@ -302,9 +338,11 @@ func (w *world) Execute(ctx context.Context, sid scheduler.ID, scheduledFor time
 		}
 	} else {
 		switch {
-		case sf == t.next:
+		case !t.exhausted && sf == t.next:
 		case t.prevSF != 0 && sf == t.prevSF:
 			w.fail("order/duplicate", "id %d (%s, last %s): occurrence %s executed twice; expected next %s", id, t.spec, rel(t.last), rel(sf), rel(t.next))
+		case t.exhausted:
+			w.fail("order/after-last-occurrence", "id %d (%s, last %s): Execute for %s although the schedule has no occurrence after %s (cron Next reports the end of the schedule)", id, t.spec, rel(t.last), rel(sf), rel(t.prevSF))
 		case sf < t.next:
 			w.fail("order/regressed", "id %d (%s, last %s): Execute for %s but the next consecutive occurrence is %s (previous run was for %s)", id, t.spec, rel(t.last), rel(sf), rel(t.next), rel(t.prevSF))
 		default:
@@ -313,11 +351,16 @@ func (w *world) Execute(ctx context.Context, sid scheduler.ID, scheduledFor time
 		if (sf+t.off)*1e9 > clk {
 			w.fail("early/before-offset", "id %d (%s): Execute for %s with offset %ds entered when the scheduler's clock was %+dms, i.e. %dms before occurrence+offset", id, t.spec, rel(sf), t.off, (clk-baseUnix*1e9)/1e6, ((sf+t.off)*1e9-clk)/1e6)
 		}
-		t.prevSF = sf
-		if nx, err := t.sch.Next(time.Unix(sf, 0).UTC()); err == nil {
-			t.next = nx.Unix()
-		} else {
-			w.fail("harness/cron-next", "cron Next(%v): %v", sf, err)
+		if !t.exhausted {
+			t.prevSF = sf
+			if nx, err := t.sch.Next(time.Unix(sf, 0).UTC()); err == nil {
+				t.next = nx.Unix()
+			} else {
+				// the schedule ends here (7-field cron past its last year): nothing more is expected
+				t.next, t.exhausted = 0, true
+				w.nLast++
+				w.log("op%d id=%d schedule ended after %s: %v", w.opIdx, id, rel(sf), err)
+			}
 		}
 	}
 	r := &runRec{id: id, epoch: t.epoch, sf: sf, runAt: runAt.Unix(), clk: clk, behave: t.behave, unblock: make(chan struct{})}
@@ -415,6 +458,11 @@ func (w *world) blockedSnap() map[int]int {
 	return w.blockedWorkers()
 }
 
+// due: the next expected occurrence of the task has been reached by the clock (never for an exhausted schedule).
+func (t *taskM) due(cur int64) bool {
+	return !t.exhausted && (t.next+t.off)*1e9 <= cur
+}
+
 // settled: no executor call in progress other than deliberately blocked ones, every
 // finished call checkpointed, and no due occurrence outstanding for a task whose worker is
 // not blocked. Caller holds w.mu.
@@ -440,7 +488,7 @@ func (w *world) settled() (bool, string, string) {
 		if _, b := bw[workerOf(id, w.workers)]; b {
 			continue
 		}
-		if (t.next+t.off)*1e9 <= w.cur {
+		if t.due(w.cur) {
 			return false, "liveness/due-not-run", fmt.Sprintf("id %d (%s, offset %ds, last %s): occurrence %s is due (clock %+dms), its worker %d/%d is not blocked, yet Execute was not called (previous run: %s)",
 				id, t.spec, t.off, rel(t.last), rel(t.next), (w.cur-baseUnix*1e9)/1e6, workerOf(id, w.workers), w.workers, rel(t.prevSF))
 		}
@@ -509,6 +557,41 @@ func bounded(fn func()) bool {
 			}
 		}
 	}
+}
+
+// planned is the model's view of one Schedule call.
+type planned struct {
+	sch     scheduler.Schedule
+	aligned time.Time // what NewSchedule returned: handed to the scheduler as LastScheduled(), as the coordinator does
+	ref     time.Time // the last-scheduled INSTANT the occurrences are counted from, in UTC
+	first   time.Time // first expected occurrence
+	none    bool      // the schedule has no occurrence after ref
+}
+
+// plan does what coordinator.NewSchedulableTask does (scheduler.NewSchedule(spec, ts)) and
+// derives the expected first occurrence from the UTC instant of the last-scheduled time:
+//   - cron strings: the instant ts itself, cut to the whole second ("occurrences of its cron
+//     schedule after its last-scheduled time"; cron strings are UTC, cron.ParseUTC). The
+//     time.Time value returned by NewSchedule is deliberately NOT used here.
+//   - "@every d": NewSchedule aligns the last-scheduled time to a multiple of d ("Align create
+//     to the hour/minute"); that alignment is taken from NewSchedule (as an instant) because
+//     the property does not define it.
+//
+// The cron library evaluates the fields in the location of its argument, so the model always
+// hands it UTC values.
+func plan(spec string, ts time.Time) (planned, error) {
+	sch, aligned, err := scheduler.NewSchedule(spec, ts)
+	if err != nil {
+		return planned{}, fmt.Errorf("NewSchedule(%q, %v): %v", spec, ts, err)
+	}
+	p := planned{sch: sch, aligned: aligned, ref: ts.UTC().Truncate(time.Second)}
+	if strings.HasPrefix(strings.TrimSpace(spec), "@every") {
+		p.ref = aligned.UTC()
+	}
+	if p.first, err = sch.Next(p.ref); err != nil {
+		p.none = true // trusted cron library: no occurrence after ref
+	}
+	return p, nil
 }
 
 func run(c Case, cc *kit.Case) {
@@ -589,6 +672,9 @@ func run(c Case, cc *kit.Case) {
 		if w.nBlocked > 0 {
 			labels["ran:blocked"] = true
 		}
+		if w.nLast > 0 {
+			labels["ran:last-occurrence-of-an-ending-schedule"] = true
+		}
 		w.mu.Unlock()
 		switch {
 		case runs == 0:
@@ -640,45 +726,61 @@ func run(c Case, cc *kit.Case) {
 				t = &taskM{behave: "ok"}
 				w.tasks[op.ID] = t
 			}
+			if op.Zone < -14*3600 || op.Zone > 14*3600 {
+				w.mu.Unlock()
+				cc.Fail("harness/case", "op %d: zone %d", i, op.Zone)
+				return
+			}
+			loc := time.UTC
+			if op.Zone != 0 {
+				loc = time.FixedZone("", op.Zone)
+			}
 			ts := time.Unix(0, w.cur).UTC().Add(-time.Duration(op.Last) * time.Second)
 			if op.CP && t.cpLatest != 0 {
 				ts = time.Unix(t.cpLatest, 0).UTC()
 				labels["resched:from-checkpoint"] = true
 			}
 			w.mu.Unlock()
-			sch, aligned, err := scheduler.NewSchedule(op.Spec, ts) // what coordinator.NewSchedulableTask does
+			ps, err := plan(op.Spec, ts.In(loc)) // what coordinator.NewSchedulableTask does
 			if err != nil {
-				cc.Fail("harness/spec", "NewSchedule(%q): %v", op.Spec, err)
-				return
-			}
-			first, err := sch.Next(aligned)
-			if err != nil {
-				cc.Fail("harness/spec", "Next(%v) of %q: %v", aligned, op.Spec, err)
+				cc.Fail("harness/spec", "%q: %v", op.Spec, err)
 				return
 			}
 			// cost bound: at most maxBacklog overdue occurrences at Schedule time (a checkpoint
 			// can be arbitrarily old; the scheduler runs every missed occurrence)
-			{
+			if !ps.none {
 				nowT := time.Unix(0, w.curNow()).UTC()
-				o, k := first, 0
+				o, k := ps.first, 0
 				for ; k <= maxBacklog && !o.After(nowT); k++ {
-					if o, err = sch.Next(o); err != nil {
-						cc.Fail("harness/spec", "Next of %q: %v", op.Spec, err)
-						return
+					if o, err = ps.sch.Next(o); err != nil {
+						break // the schedule ends: a finite backlog
 					}
 				}
 				if k > maxBacklog {
 					labels["schedule:backlog-clamped"] = true
-					second, _ := sch.Next(first)
-					ts = nowT.Add(-time.Duration(maxBacklog/2) * second.Sub(first))
-					if sch, aligned, err = scheduler.NewSchedule(op.Spec, ts); err == nil {
-						first, err = sch.Next(aligned)
-					}
-					if err != nil {
-						cc.Fail("harness/spec", "NewSchedule/Next(%q): %v", op.Spec, err)
+					second, _ := ps.sch.Next(ps.first)
+					ts = nowT.Add(-time.Duration(maxBacklog/2) * second.Sub(ps.first))
+					if ps, err = plan(op.Spec, ts.In(loc)); err != nil {
+						cc.Fail("harness/spec", "%q: %v", op.Spec, err)
 						return
 					}
 				}
+			}
+			if ps.none {
+				// No occurrence after lastScheduled (an ending schedule whose end has passed): what
+				// Schedule has to do then is not part of the property; the call is not issued.
+				labels["schedule:no-occurrence-left(skipped)"] = true
+				continue
+			}
+			sch, aligned, first := ps.sch, ps.aligned, ps.first
+			if op.Zone != 0 {
+				labels["lastScheduled:non-UTC-location"] = true
+				if z, err := sch.Next(ps.ref.In(loc)); err != nil || !z.Equal(first) {
+					labels["lastScheduled:non-UTC-location,zone-sensitive-schedule"] = true
+				}
+			}
+			if _, err := sch.Next(time.Date(2001, 12, 31, 23, 59, 59, 0, time.UTC)); err != nil {
+				labels["schedule:ending"] = true
 			}
 			w.mu.Lock()
 			if t.scheduled {
@@ -709,7 +811,7 @@ func run(c Case, cc *kit.Case) {
 			// start before Schedule returns to this goroutine
 			t.ever, t.scheduled = true, true
 			t.epoch++
-			t.sch, t.spec, t.off, t.last, t.next, t.prevSF = sch, op.Spec, op.Off, aligned.Unix(), first.Unix(), 0
+			t.sch, t.spec, t.off, t.last, t.next, t.prevSF, t.exhausted = sch, op.Spec, op.Off, ps.ref.Unix(), first.Unix(), 0, false
 			w.mu.Unlock()
 			var serr error
 			if !bounded(func() {
@@ -732,7 +834,7 @@ func run(c Case, cc *kit.Case) {
 				labels["release"] = true
 				if t.active != nil {
 					labels["release:while-running"] = true
-				} else if b, ok := w.blockedWorkers()[workerOf(op.ID, w.workers)]; ok && b != op.ID && (t.next+t.off)*1e9 <= w.cur {
+				} else if b, ok := w.blockedWorkers()[workerOf(op.ID, w.workers)]; ok && b != op.ID && t.due(w.cur) {
 					labels["release:with-backlog-behind-blocked-worker"] = true
 				}
 			} else {
@@ -767,7 +869,7 @@ func run(c Case, cc *kit.Case) {
 			}
 			for id := 1; id <= maxID; id++ {
 				t := w.tasks[id]
-				if t == nil || !t.scheduled {
+				if t == nil || !t.scheduled || t.exhausted {
 					continue
 				}
 				// occurrences of this task that become due by this advance
@@ -778,6 +880,7 @@ func run(c Case, cc *kit.Case) {
 					}
 					nx, err := t.sch.Next(time.Unix(o, 0).UTC())
 					if err != nil {
+						labels["advance:over-the-end-of-a-schedule"] = true
 						break
 					}
 					o = nx.Unix()
@@ -834,7 +937,7 @@ func run(c Case, cc *kit.Case) {
 					t.active.released = true
 					close(t.active.unblock)
 					labels["unblock"] = true
-					if t.scheduled && (t.next+t.off)*1e9 <= w.cur {
+					if t.scheduled && t.due(w.cur) {
 						labels["unblock:with-backlog"] = true
 					}
 				}
@@ -927,7 +1030,9 @@ func tail(s []string, n int) []string {
 }
 
 var assumptions = []string{
-	"occurrences are computed with the scheduler.Schedule (influxdata/cron) value handed to the scheduler: the cron library is trusted",
+	"occurrences are computed with the scheduler.Schedule (influxdata/cron) value handed to the scheduler: the cron library is trusted; it evaluates the fields in the location of its argument, so the model always hands it UTC times (cron strings are UTC: scheduler.NewSchedule and ValidateSchedule parse them with cron.ParseUTC)",
+	"the last-scheduled time is an instant: the time.Time handed to NewSchedule is in UTC or in a fixed-offset location (a caller can produce both: TreeScheduler.work passes time.Unix(..), i.e. the process-local zone, to UpdateLastScheduled, task/kv persists LatestScheduled as RFC3339 JSON and coordinator.NewSchedulableTask hands the decoded value to NewSchedule unchanged); for cron strings the expected occurrences are counted from that instant cut to the whole second, not from the value NewSchedule returns; for '@every d' the alignment to a multiple of d is taken from NewSchedule's return value as an instant (the property does not define the alignment)",
+	"a schedule can end (7-field cron with a year field; cron Next returns an error after the last occurrence): the last occurrence is still due and must run, after it no run of that id is expected until it is scheduled again; a Schedule call whose schedule has no occurrence after lastScheduled is not issued (its effect is not defined by the property)",
 	"lastScheduled goes through scheduler.NewSchedule (truncation/alignment) exactly as coordinator.NewSchedulableTask does; on Schedule it is the clock minus 0..30 periods, on re-Schedule mostly the latest checkpoint of the id (what the coordinator persists; with a negative offset that can be ahead of the clock), sometimes clock-relative",
 	"offsets are whole seconds, positive or negative (task/options validation: 'offset option must be expressible as whole seconds', negative allowed); schedules have whole-second periods >= 1 s",
 	"a re-Schedule defines a new epoch: runs after it are the consecutive occurrences after the NEW lastScheduled (an occurrence may therefore legitimately run again after a re-Schedule that rewinds); checkpoints are required to move forward within an epoch",
